@@ -505,6 +505,7 @@ theorem gotHeaders_ok (ovf : Bool → Nat → Int) (st : St) (buf pre : Bytes)
           · rw [hP]
             (try dsimp only)
             rw [if_neg (by simp [hrl])]
+            simp only [afterParse]
             split
             · -- 1xx: back to reading headers
               simp only [MicroOK]
